@@ -86,7 +86,11 @@ class OscInterface(ABC):
             for func in type(self)._recv_functions.copy():
                 func(list(msg), time, addr, self.port)
 
-        clk.SystemClock.sched(0, sched_func)  # Updates logical time.
+        # Updates logical time. A message already received is not a task
+        # of the user, clearing the clock (CmdPeriod) does not discard it.
+        sched_func = fn.Function(sched_func)
+        sched_func._survives_clear = True
+        clk.SystemClock.sched(0, sched_func)
 
     def _handle_request(self, data, address):
         try:
